@@ -7,8 +7,12 @@ def _is_array(x):
     return hasattr(x, 'shape') and hasattr(x, 'ndim') and hasattr(x, 'flat') or (hasattr(x, '_a') and hasattr(x, 'shape'))
 
 
-def flatten(x, depth=0):
-    """returns (signature, scalars)"""
+def flatten(x, depth=0, numeric=False):
+    """returns (signature, scalars); numeric=True: ints (not bools) are treated as reals"""
+    if numeric and isinstance(x, int) and not isinstance(x, bool):
+        return ('real',), [x]
+    if numeric and type(x).__name__ in ('int64', 'int32', 'intp'):
+        return ('real',), [int(x)]
     if depth > 6:
         return ('deep',), []
     if x is None:
@@ -41,42 +45,44 @@ def flatten(x, depth=0):
             return ('barray', tuple(x.shape)), [bool(v) for v in x.flat]
         if x.dtype.kind == 'O':
             return ('array', tuple(x.shape)), list(x.flat)
+        if x.dtype.kind in 'iu' and not numeric:
+            return ('iarray', tuple(x.shape)), [int(v) for v in x.flat]
         return ('array', tuple(x.shape)), [float(v) for v in x.flat]
     if isinstance(x, (list, tuple)):
         sigs, sc = [], []
         for e in x:
-            s, v = flatten(e, depth + 1)
+            s, v = flatten(e, depth + 1, numeric)
             sigs.append(s)
             sc += v
         return (type(x).__name__, tuple(sigs)), sc
     if isinstance(x, dict):
         sigs, sc = [], []
         for k in sorted(x, key=str):
-            s, v = flatten(x[k], depth + 1)
+            s, v = flatten(x[k], depth + 1, numeric)
             sigs.append((str(k), s))
             sc += v
         return ('dict', tuple(sigs)), sc
     if isinstance(x, BaseException):
         return ('exc', tn), []
     if hasattr(x, 'data') and isinstance(getattr(x, 'data', None), list):
-        s, v = flatten(x.data, depth + 1)
+        s, v = flatten(x.data, depth + 1, numeric)
         extra = []
         for k in sorted(k for k in getattr(x, '__dict__', {}) if k != 'data'):
-            s2, v2 = flatten(x.__dict__[k], depth + 1)
+            s2, v2 = flatten(x.__dict__[k], depth + 1, numeric)
             extra.append((k, s2))
             v += v2
         return ('obj', tn, s, tuple(extra)), v
     if hasattr(x, '__dict__') and type(x).__module__.startswith('spatialmath'):
         sigs, sc = [], []
         for k in sorted(x.__dict__):
-            s, v = flatten(x.__dict__[k], depth + 1)
+            s, v = flatten(x.__dict__[k], depth + 1, numeric)
             sigs.append((k, s))
             sc += v
         return ('obj', tn, tuple(sigs)), sc
     if isinstance(x, type):
         return ('class', x.__name__), []
     if hasattr(x, '__iter__'):
-        return flatten(list(x), depth + 1)
+        return flatten(list(x), depth + 1, numeric)
     return ('other', tn), []
 
 
